@@ -5,9 +5,16 @@ correspond: the implementation's matrix is extracted column by column (basis vec
   (phase as a fraction of a turn, squared magnitude as a fraction) — an entry that is not within
   the tolerance of a scaled root of unity is a disagreement — and compared EXACTLY with the table the
   Lean model computes through the generated pipeline; result dtypes are compared as strings.
+  Inputs are fed in C order, Fortran order, as strided / offset / negative-stride views (`layout`), and a
+  `same-shape-sequence` stream calls fft/ifft on ONE shape with a sequence of different
+  (axes, center, norm, direction) settings — returning to earlier settings — and compares every result
+  with the model, so state kept between calls and keyed on the shape only shows in the correspondence.
 search: the property's own oracle on the real code — explicit DFT-matrix product in complex128
   written from the statement (centre pad/crop, origin n//2 or 0, scale table), round trip, norm
-  preservation and precision preservation.
+  preservation and precision preservation; random cases, a dtype x layout x entry-point sweep
+  (float32 / complex64 / int / complex128 through sp.fft, sp.ifft, linop.FFT, linop.IFFT and their
+  adjoints), and the same history-dependent sequences (a failing step records the calls made before it
+  on that shape, and the replay re-issues them first).
 """
 import itertools
 import json
@@ -20,7 +27,7 @@ from harness import common
 from harness.translate import gen as G
 
 PROPERTY = "C05"
-LEAN_MODULES = ["SigpyVerif.Props.C05"]
+LEAN_MODULES = ["SigpyVerif.Props.C05", "SigpyVerif.Props.C05Nd"]
 THEOREMS = ["SigpyVerif.C05." + t for t in [
     # integers: the table computed through the generated pipeline
     "pipelines_are_centred", "normAxis_spec", "rollDst_rollSrc", "fftc_exponent", "fft_uncentred_exponent",
@@ -30,6 +37,21 @@ THEOREMS = ["SigpyVerif.C05." + t for t in [
     "axisExp_eq", "dft_orthogonality", "idftMatrix_eq_conjTranspose", "dft_mul_general", "dftMatrix_unitary",
     "ifft_fft_id", "fft_ifft_id", "fft_norm_preserved", "backward_scaling_inverse", "fft_separable_unitary",
     "identity_axis_unitary", "signedExp_denote", "entry_separable", "phase_add",
+    # N-d (Props/C05Nd.lean): n-fold Kronecker product on multi-indices
+    "piKron_mul", "piKron_one", "piKron_conjTranspose", "piKron_unitary", "piKron_ite_apply",
+    "fftn_matrix_entry", "fftn_unitary", "ifftn_eq_conjTranspose", "fftn_mul_general", "ifftn_fftn_id",
+    "fftn_ifftn_id", "fftn_norm_preserved", "fftn_backward_scaling_inverse", "fftn_unitary_flat",
+    # axes: negative spellings, subsets, the matrix depends on the axis set only
+    "nodup_of_eraseDups_length", "axesOk_spec", "normAxis_eq_iff", "axes_normalised_distinct",
+    "axes_normalised_uncentred", "axes_none", "entryGo_axes_congr", "spellings_same_matrix",
+    # the executable table denotes the N-d matrix
+    "mkPipe_steps", "axisEntry_mag_nonneg", "entryGo_cons_denote", "entryGo_denote", "root_primitive", "root_inv",
+    "exp_phase", "centred_axis_denote", "plain_axis_denote", "id_axis_denote", "tr_axis_denote", "entry_denote",
+    "ortho_scale", "fft_table_unitary", "ifft_table_eq_conjTranspose",
+    # centred oshape in N-d = F_Nd after C09's resize
+    "axis_oshape_factor", "entryGo_oshape", "fft_oshape_eq_fftn_resize", "fft_oshape_aligned", "resize_feeds_fftn",
+    # the function the driver runs
+    "table_eq", "sigpy_fft_unitary",
 ]]
 
 TOL64 = 1e-5     # relative, complex64 path (observed rounding <= 3e-7)
@@ -120,11 +142,38 @@ def quantise(z, shape, tol):
     return (ph, mag2)
 
 
+# ---- memory layouts ------------------------------------------------------------------------------
+LAYOUTS = ("C", "F", "strided", "offset", "negstride")
+
+
+def with_layout(x, layout):
+    """a fresh array with the values of `x` and the requested memory layout (never shares memory with x)"""
+    x = np.asarray(x)
+    if layout == "C" or x.ndim == 0:
+        return np.array(x, order="C", copy=True)
+    if layout == "F":
+        return np.array(x, order="F", copy=True)
+    if layout == "strided":      # every second element of a buffer twice as long along every axis
+        big = np.full(tuple(2 * n for n in x.shape), 7, dtype=x.dtype)
+        v = big[tuple(slice(None, None, 2) for _ in x.shape)]
+        v[...] = x
+        return v
+    if layout == "offset":       # interior of a larger buffer (non-zero offset, row length != shape[-1])
+        big = np.full(tuple(n + 3 for n in x.shape), 5, dtype=x.dtype)
+        v = big[tuple(slice(1, n + 1) for n in x.shape)]
+        v[...] = x
+        return v
+    if layout == "negstride":    # reversed in memory along every axis
+        rev = tuple(slice(None, None, -1) for _ in x.shape)
+        return np.array(x[rev], order="C", copy=True)[rev]
+    raise ValueError(layout)
+
+
 # ---- running the real code -----------------------------------------------------------------------
 def run_impl(c, x):
     import sigpy as sp
     from sigpy import linop
-    x = x.copy()
+    x = with_layout(x, c.get("layout", "C"))
     axes = None if c["axes"] is None else tuple(c["axes"])
     osh = None if c["osh"] is None else tuple(c["osh"])
     via = c.get("via", "func")
@@ -171,7 +220,45 @@ def gen_case(rng, max_nd=3, hi=8, linops=True):
         c["osh"] = [max(1, n + rng.choice([-3, -2, -1, -1, 0, 1, 1, 2, 3])) for n in ish]
     if linops and c["osh"] is None and c["norm"] == "ortho" and rng.random() < 0.5:
         c["via"] = rng.choice(["linop", "linopH"])
+    if rng.random() < 0.5:
+        c["layout"] = rng.choice(LAYOUTS[1:])
     return c
+
+
+def rand_setting(rng, nd, allow_osh_of=None):
+    """one (direction, center, norm, axes, entry point) setting for a fixed shape"""
+    s = dict(inv=rng.randint(0, 1), center=rng.randint(0, 1) if rng.random() < 0.4 else 1,
+             norm=rng.choice(["ortho", None]), axes=rand_axes(rng, nd), via="func", osh=None)
+    if s["norm"] == "ortho" and rng.random() < 0.3:
+        s["via"] = rng.choice(["linop", "linopH"])
+    return s
+
+
+def same_shape_sequences(rng, nseq, length, hi=6, max_nd=3):
+    """nseq sequences; each is ONE shape (lengths biased to even values: the place where shifts can be
+    replaced by modulations / precomputed tables) x `length` different settings, then the first two again.
+    Every step carries `history` = the settings issued before it on this shape."""
+    out = []
+    for _ in range(nseq):
+        nd = rng.choice([1, 2, 2, 3, 3] if max_nd <= 3 else [2, 3, 3, 4])
+        ish = [rng.choice([2, 4, 4, 6, 6, 2, 3, 5, 1]) if hi >= 6 else rng.randint(1, hi) for _ in range(nd)]
+        dt = rng.choice(COMPLEX + ("float32", "int64"))
+        layout = rng.choice(LAYOUTS)
+        settings, seen = [], set()
+        for _ in range(length * 4):
+            st = rand_setting(rng, nd)
+            sig = json.dumps(st, sort_keys=True)
+            if sig not in seen:
+                seen.add(sig)
+                settings.append(st)
+            if len(settings) >= length:
+                break
+        settings = settings + settings[:2]
+        hist = []
+        for st in settings:
+            out.append(dict(st, ish=ish, dt=dt, layout=layout, history=list(hist)))
+            hist.append(st)
+    return out
 
 
 def exhaustive_1d(max_n):
@@ -235,10 +322,11 @@ def _run(ctx, cases, stream, rng, full_below=24, k=8):
             impl = (str(y.dtype), sh, [quantise(complex(z), sh, tol) for z in y.ravel()])
         except Exception as e:  # noqa
             impl = "err %s" % type(e).__name__
-        ctx.case((ln, c["via"]), sample=dict(line=ln, reply=r[:160]) if ctx.evaluations % 211 == 0 else None)
+        ctx.case((ln, c["via"], c.get("layout", "C"), len(c.get("history", ()))), sample=dict(line=ln, reply=r[:160]) if ctx.evaluations % 211 == 0 else None)
         ctx.count("%s:%s:%s:%s:%dd" % ("ifft" if c["inv"] else "fft", "c" if c["center"] else "u", c["norm"], c["via"], len(c["ish"])))
         ctx.count("dtype:" + c["dt"])
         ctx.count("oshape:" + ("none" if c["osh"] is None else "given"))
+        ctx.count("layout:" + c.get("layout", "C"))
         model_c = model
         if impl != model_c:
             bad += 1
@@ -248,21 +336,23 @@ def _run(ctx, cases, stream, rng, full_below=24, k=8):
                     if a != b:
                         first = (t, a, b)
                         break
-            ctx.disagree(stream, dict(case=c, j=list(j)),
+            ctx.disagree(stream, dict(case=c, j=[int(v) for v in j]),
                          impl if first is None else (impl[0], impl[1], "first differing entry (flat index, impl, model): %r" % (first,)),
                          model_c if first is None else (model_c[0], model_c[1]))
     return bad
 
 
 def correspond(ctx):
-    ctx.rule = ("case = (fft|ifft, center, norm, ishape, oshape, axes, dtype, entry point) x basis column j; distinct by "
-                "protocol line + entry point; every case is non-trivial (a whole matrix column is compared exactly: "
+    ctx.rule = ("case = (fft|ifft, center, norm, ishape, oshape, axes, dtype, entry point, memory layout, number of earlier "
+                "calls on the same shape) x basis column j; distinct by protocol line + entry point + layout + history length; every case is non-trivial (a whole matrix column is compared exactly: "
                 "phase as a fraction of a turn, squared magnitude as a fraction, zero pattern, result dtype)")
     ctx.assumptions += [
         "numpy contract (hand-written in Model/C05.lean): fftn/ifftn are the plain DFT with exponent p*m mod n, sign -/+ and "
         "scale 1, 1/n (norm=None) or 1/sqrt n (ortho); ifftshift/fftshift roll by -(n//2)/(n//2); numpy normalises negative axes",
         "correspondence entries are accepted as a scaled root of unity within 1e-5 (complex64 path) / 1e-10 (complex128) relative",
         "oshape is only exercised with center=True (the property's domain)",
+        "the N-d theorems (Props/C05Nd.lean) are about C05.table, the function the driver runs (table_eq, entry_denote, "
+        "sigpy_fft_unitary); that numpy's fftn/ifftn/roll satisfy the 1-D contract stays validated by correspondence",
     ]
     ctx.trusted += ["harness/translate/gen_c05.py (statement-by-statement extraction of fft/ifft/_fftc/_ifftc/_normalize_axes)"]
     rng = ctx.rng
@@ -278,6 +368,10 @@ def correspond(ctx):
     cases = [gen_case(rng) for _ in range(500 if quick else 10000)]
     bad = _run(ctx, cases, "random", rng)
     ctx.oblige("correspondence:C05.random", "correspondence", bad == 0, "%d disagreements" % bad)
+    # history: one shape, a sequence of different settings (and back to the first ones); program order is kept
+    seq = same_shape_sequences(rng, 40 if quick else 600, 5)
+    bad = _run(ctx, seq, "same-shape-sequence", rng, full_below=4, k=3)
+    ctx.oblige("correspondence:C05.same-shape-sequence", "correspondence", bad == 0, "%d disagreements" % bad)
     ctx.traces = ctx.evaluations
 
 
@@ -336,11 +430,19 @@ def relerr(a, b):
     return d / max(np.abs(b).max() if b.size else 0.0, 1e-300)
 
 
-def check_oracle(ctx, c, origin):
-    """True when the property holds on this input"""
+def check_oracle(ctx, c, origin, replay_history=False):
+    """True when the property holds on this input.  `c["history"]` (same-shape sequences) lists the
+    settings of the calls made earlier on this shape; a replay re-issues them first (fresh process)."""
+    c.setdefault("xseed", 0)
     x = make_x(c)
     tol = tol_of(c["dt"])
     ok = True
+    if replay_history:
+        for n, h in enumerate(c.get("history", [])):
+            try:
+                run_impl(dict(c, **h), make_x(dict(c, xseed=c["xseed"] + 1 + n, delta=None)))
+            except Exception:
+                pass
 
     def fail(aspect, what, obs, exp):
         nonlocal ok
@@ -376,8 +478,8 @@ def check_oracle(ctx, c, origin):
                 from sigpy import linop
                 A = (linop.IFFT if c["inv"] else linop.FFT)(c["ish"], axes=None if c["axes"] is None else tuple(c["axes"]),
                                                               center=bool(c["center"]))
-                back = A.H(y)
-                nrm = A.N(x)
+                back = A.H(with_layout(y, c.get("layout", "C")))
+                nrm = A.N(with_layout(x, c.get("layout", "C")))
                 if relerr(nrm, x) > tol:
                     fail("normal", "A.N(x) is not x", float(relerr(nrm, x)), 0.0)
             else:
@@ -391,6 +493,28 @@ def check_oracle(ctx, c, origin):
         except Exception as e:
             fail("raised", "round trip raised %s" % type(e).__name__, repr(e), "x")
     return ok
+
+
+def dtype_layout_sweep():
+    """float32 / complex64 / int / complex128 (+ float64, bool) inputs in every memory layout through
+    sp.fft / sp.ifft (centred and not, both norms, an oshape) and linop.FFT / IFFT and their adjoints"""
+    shapes = [([6], [None, [-1]]), ([3, 4], [None, [0], [-1]]), ([2, 3, 4], [None, [0, -1], [1]])]
+    for ish, axs in shapes:
+        for dt in ("float32", "complex64", "int64", "complex128", "float64", "bool", "int32"):
+            for layout in LAYOUTS:
+                for axes in axs:
+                    for inv in (0, 1):
+                        for center in (0, 1):
+                            for norm in ("ortho", None):
+                                yield dict(inv=inv, center=center, norm=norm, ish=ish, osh=None, axes=axes, dt=dt,
+                                           via="func", layout=layout)
+                            if center:
+                                yield dict(inv=inv, center=1, norm="ortho", ish=ish, axes=axes, dt=dt, via="func",
+                                           osh=[n + (1 if t % 2 else -1) if n > 1 else n + 1 for t, n in enumerate(ish)],
+                                           layout=layout)
+                            for via in ("linop", "linopH"):
+                                yield dict(inv=inv, center=center, norm="ortho", ish=ish, osh=None, axes=axes, dt=dt,
+                                           via=via, layout=layout)
 
 
 def search_case(rng):
@@ -423,6 +547,18 @@ def search(ctx, budget):
         c = dict(c, xseed=rng.randrange(1 << 30))
         ctx.case(("oracle", json.dumps(c, sort_keys=True)))
         check_oracle(ctx, c, "search-exhaustive")
+    # every input dtype class x memory layout x entry point x direction x centre
+    for c in dtype_layout_sweep():
+        c = dict(c, xseed=rng.randrange(1 << 30))
+        ctx.case(("oracle", json.dumps(c, sort_keys=True)))
+        ctx.count("search:sweep:%s:%s" % (c["dt"], c["layout"]))
+        check_oracle(ctx, c, "search-dtype-layout")
+    # history-dependent calls: one shape, changing settings, back to the first ones
+    for c in same_shape_sequences(rng, int(60 * budget), 6, max_nd=4):
+        c = dict(c, xseed=rng.randrange(1 << 30))
+        ctx.case(("oracle", json.dumps(c, sort_keys=True)))
+        ctx.count("search:sequence:%dd" % len(c["ish"]))
+        check_oracle(ctx, c, "search-sequence")
 
 
 def replay(path):
@@ -432,7 +568,7 @@ def replay(path):
         return 0
     c = r["case"]
     ctx = common.Ctx(PROPERTY, "quick", 0)
-    ok = check_oracle(ctx, c, "replay")
+    ok = check_oracle(ctx, c, "replay", replay_history=True)
     for f in ctx.failures:
         print("  observed:", f["observed"], "expected:", f["expected"], "(%s)" % f["what"])
     if c.get("delta") is not None:
